@@ -15,6 +15,12 @@
 //
 // scn output: `res=<ok|closed|other|->,… disc=<ids|-> handled=N panics=N closed=0|1 escaped=0|1`
 // par output: `disc=N closed=0|1 later=<r>,<r> okclose=0|1 escaped=0|1`
+//
+//	wac <means> <state> <proto> <kind> <entry>   write after close: connection with protocol <proto> (old = 1.19.4, new = 1.20.2)
+//	    in state <state> (hs st lg cf pl) is closed by <means> (ck cu cw we = a write error, eof = the read loop ends), then
+//	    <entry> (wp wr bp bl fl) is called with a packet of <kind> (reg = registered in that state where one exists,
+//	    po = play-only packet, which takes the play-packet-queue path).  Output: the result class of that call.
+//
 // `hang` if the scenario does not finish.
 package main
 
@@ -37,7 +43,9 @@ import (
 	"github.com/go-logr/logr/funcr"
 	"go.minekube.com/gate/pkg/edition/java/netmc"
 	"go.minekube.com/gate/pkg/edition/java/proto/packet"
+	"go.minekube.com/gate/pkg/edition/java/proto/packet/title"
 	"go.minekube.com/gate/pkg/edition/java/proto/state"
+	"go.minekube.com/gate/pkg/edition/java/proto/version"
 	"go.minekube.com/gate/pkg/gate/proto"
 
 	"verifharness/hx"
@@ -444,6 +452,73 @@ func runPar(hspecs []string, active string, threads [][]string, script string, y
 	})
 }
 
+// ---------- write after close, every entry point x state x protocol x packet kind ----------
+
+func regOfState(st string) *state.Registry {
+	switch st {
+	case "hs":
+		return state.Handshake
+	case "st":
+		return state.Status
+	case "lg":
+		return state.Login
+	case "cf":
+		return state.Config
+	}
+	return state.Play
+}
+
+func runWac(means, st, pr, kind, entry string) string {
+	return guard(func() string {
+		w := newWorld([]string{"-/-"}, "-")
+		if pr == "new" {
+			w.conn.SetProtocol(version.Minecraft_1_20_2.Protocol)
+		} else {
+			w.conn.SetProtocol(version.Minecraft_1_19_4.Protocol)
+		}
+		w.conn.SetActiveSessionHandler(regOfState(st), w.handlers[0])
+		switch means {
+		case "ck", "cu", "cw":
+			w.api(means)
+		case "we":
+			w.api("fnr")
+			_ = w.conn.Write([]byte{0x00, 1, 2, 3})
+		case "eof":
+			w.feed("e")
+		}
+		if !netmc.Closed(w.conn) {
+			return "not-closed"
+		}
+		var pk proto.Packet = &packet.KeepAlive{RandomID: 5}
+		if kind == "po" {
+			pk = &title.Times{FadeIn: 1, Stay: 2, FadeOut: 3}
+		} else {
+			switch st {
+			case "st":
+				pk = &packet.StatusResponse{Status: "{}"}
+			case "lg":
+				pk = &packet.SetCompression{Threshold: 256}
+			}
+		}
+		var err error
+		switch entry {
+		case "wp":
+			err = w.conn.WritePacket(pk)
+		case "bp":
+			err = w.conn.BufferPacket(pk)
+		case "wr":
+			err = w.conn.Write([]byte{0x00, 9, 9, 9, 9})
+		case "bl":
+			err = w.conn.BufferPayload([]byte{0x00, 9, 9, 9, 9})
+		case "fl":
+			err = w.conn.Flush()
+		}
+		out := resOf(err)
+		w.finish()
+		return out
+	})
+}
+
 // ---------- generators ----------
 
 var mainApis = []string{"ck", "cu", "cw", "wp", "wr", "bp", "bl", "fl", "fn", "fnp", "fne", "fnr", "fnc", "fnt", "gc", "wp", "wr", "fl"}
@@ -528,6 +603,22 @@ func main() {
 	for _, c := range fixed {
 		ev := strings.Fields(c.ev)
 		run.Case("scn-fixed", scnLine("scn", c.hs, c.active, "E "+c.ev), runScn(c.hs, c.active, ev))
+	}
+
+	// ---- write after close: the whole (means x state x protocol x kind x entry point) table ----
+	for _, means := range []string{"ck", "cu", "cw", "we", "eof"} {
+		for _, st := range []string{"hs", "st", "lg", "cf", "pl"} {
+			for _, pr := range []string{"old", "new"} {
+				for _, kind := range []string{"reg", "po"} {
+					for _, entry := range []string{"wp", "wr", "bp", "bl", "fl"} {
+						if hangs >= 8 {
+							continue
+						}
+						run.Case("wac", strings.Join([]string{"wac", means, st, pr, kind, entry}, " "), runWac(means, st, pr, kind, entry))
+					}
+				}
+			}
+		}
 	}
 
 	// ---- generated deterministic scenarios ----
